@@ -63,6 +63,29 @@ def run(rep, tier, seed, known, part):
         return If(ULT(k, BitVecVal(skeys[mid][0], 32)), tree(k, lo, mid), tree(k, mid, hi))
 
     core.TREE = lambda k: tree(k, 0, len(skeys))
+    # entries returned by a lookup are symbolic table indexes; code that inspects such an entry's TagRange sees an enum whose variant is a
+    # term over the index (0 Single, 1 Group100, 2 Element100 - the order of the variants in dicom_core::dictionary::TagRange)
+    g100 = [i for i, (kind, tag, alias, cname) in enumerate(entries) if kind == "Group100"]
+    e100 = [i for i, (kind, tag, alias, cname) in enumerate(entries) if kind == "Element100"]
+
+    class TagRangeSym(core.Enum):
+        def __init__(self, idx):
+            core.Enum.__init__(self, "TagRangeOfEntry", [core.Struct([BitVecVal(0, 16), BitVecVal(0, 16)])])
+            self.sym_disc = If(Or([idx == i for i in g100]), IntVal(1), If(Or([idx == i for i in e100]), IntVal(2), IntVal(0)))
+            self.sym_disc_values = [0, 1, 2]
+
+    class EntrySym(tuple):
+        """('entry', index term) for the legacy code paths, with the fields of DataDictionaryEntryRef for code that looks inside"""
+        @property
+        def f(self): return [TagRangeSym(self[1]), None, None]
+
+    def entry_contracts(c, args, ctx):
+        if re.match(r"HashMap::<dicom_core::Tag, .*>::get::<", c):
+            k = core._d(args[1]); key = Concat(k.f[0], k.f[1])
+            t = simplify(core.TREE(key))
+            return core.Enum("Some", [core.Ref(core.Cell(EntrySym(("entry", t))))], sym_some=(t != core.NONE))
+        return NotImplemented
+    core.EXTRA_CONTRACTS[:] = [entry_contracts]
     core.REGISTRY = core.Struct([reg.f[0], reg.f[1], reg.f[2], reg.f[3]])
     for a in re.finditer(r"^(alloc\d+) \(static: (\w+),", core.MIR, re.M):
         if a.group(2) in ("PRIVATE_CREATOR_ENTRY", "GROUP_LENGTH_ENTRY"):
@@ -177,6 +200,7 @@ def run(rep, tier, seed, known, part):
     rep.obligation("forall tag constant: value == published row == its entry's tag", "violated" if wrong else "holds", {"constants": len(docs)})
     rep.evaluations += len(entries) * 2
     nat.close()
+    core.EXTRA_CONTRACTS[:] = []
     try:
         os.remove(path)
     except OSError:
